@@ -74,11 +74,14 @@ Fixpoint lines_cmp (m o : list oline) : N :=
 Definition glyphs (emv : Z) (l : list item) : Z :=
   fold_right (fun i a => match i with Word w | Space _ w => w / emv + a | Hard => 1 + a | _ => a end) 0 l.
 
+Definition no_hard (l : list item) : list item := filter (fun i => negb (is_hard i)) l.
+
+(* (length kept on the first line, index where the second line starts or -1) *)
 Definition split_expect (emv maxw : Z) (items : list item) : Z * Z :=
   match flat (break_lines maxw 0 items) with
   | [] => (0, -1)
-  | [l] => (glyphs emv (trim_line l), -1)
-  | l :: _ => (glyphs emv (trim_line l), glyphs emv l)
+  | [l] => (glyphs emv (no_hard (trim_line l)), -1)
+  | l :: _ => (glyphs emv (no_hard (trim_line l)), glyphs emv l)
   end.
 
 (* ---- monitor *)
@@ -100,6 +103,10 @@ Fixpoint cut_in_gap (pre suf : list item) (seen k : N) : bool :=
 
 Definition slack (a : Q) : Q := a + Qabs a * (1 # 1024) + (1 # 1024).
 
+(* y_k + h_k against y_{k+1}: the implementation adds in float32 (one rounding, 2^-24
+   relative); real-font heights are not dyadic-friendly, so allow 2^-20 *)
+Definition close (a b : Q) : bool := Qle_bool (Qabs (a - b)) ((Qabs b + 1) * (1 # 1048576)).
+
 (* lines: (solids on the line, occupied width, y, h); `from` = solids before the line *)
 Fixpoint mon (availq av : Q) (items : list item) (from : N) (ls : list mline) : N :=
   match ls with
@@ -114,7 +121,7 @@ Fixpoint mon (availq av : Q) (items : list item) (from : N) (ls : list mline) : 
            | [] => 0
            | ML _ _ y' _ :: _ =>
                if negb (cut_in_gap [] items 0 last) then 8
-               else if negb (Qeq_bool (y + h) y') then 9
+               else if negb (close (y + h) y') then 9
                else mon availq availq items last r
            end
   end%N.
@@ -183,7 +190,9 @@ Definition check (c : case) : N :=
         let '(el, er) := split_expect emv maxw items in
         if (el =? len) && (er =? resume) then 0%N else 6%N
       else 0%N
-  | CMon availq indentq items lines => mon availq (availq - indentq) items 0 lines
+  | CMon availq indentq items lines =>
+      (* the implementation's line width includes the text-indent of the first line *)
+      mon availq availq items 0 lines
   | CBad _ => 10%N
   end.
 
